@@ -16,7 +16,7 @@ def nontrivial(d):
 
 # F-C17-1: types that contain a `skip_serializing_if` field which is actually skipped in the state reached
 T_BIN_SKIPPED = {"FuelConverter", "Generator", "ElectricDrivetrain", "ElectricDrivetrain.bel", "ReversibleEnergyStorage",
-                 "Locomotive.conv", "Locomotive.bel", "Consist", "LocomotiveSimulation", "LocomotiveSimulation.bel",
+                 "Locomotive.conv", "Locomotive.bel", "Locomotive.hybrid", "Consist", "LocomotiveSimulation", "LocomotiveSimulation.bel",
                  "LocomotiveSimulationVec", "ConsistSimulation", "SetSpeedTrainSim", "SetSpeedTrainSim.default",
                  "Network", "TrainConfig", "TrainSimBuilder", "TrainSimBuilder.init", "TrainSimBuilder.nan"}
 # F-C17-2: types that contain a `Location`
@@ -49,32 +49,45 @@ def _sl_sig(which):
     return f
 
 
-def _json_drift(desc, events, inv):
-    # a second JSON round trip moves numbers by exactly one unit in the last place, nothing else differs
-    if inv != "Idempotent":
-        return False
-    bad = [e for e in events if e.get("ev") == "SaveLoad" and e.get("ok") and not (e.get("ok2") and e.get("d1") == e.get("d2"))]
-    return bool(bad) and all(e["fmt"] == "json" and e.get("ok2") and e.get("again_ulps") == 1 for e in bad)
+# ---- selftest: one recorded field corrupted -> the trace spec must name the invariant at exactly that line
+
+def _corrupt(ev, pred, change, expect, nojson=False, after_json=False):
+    sched = {e["case"]: e["desc"]["sched"] for e in ev if e.get("ev") == "begin"}
+    json_ok = set()
+    for i, e in enumerate(ev):
+        c = e.get("case")
+        if e.get("ev") == "SaveLoad" and e.get("fmt") == "json" and e.get("ok"):
+            json_ok.add(c)
+        if nojson and "json" in sched.get(c, []):
+            continue
+        if after_json and c not in json_ok:
+            continue
+        if pred(e):
+            change(e)
+            return ev, i, expect
+    return None
 
 
-def _fresh_consist_brake(desc, events, inv):
-    # F-C17-5: a constructed (never init()-ed) consist refuses to brake in its very first step, a reloaded one brakes:
-    # the first divergence of the case is step 1 of a run without pre-steps, after a successful load, the reference
-    # step failed on the dynamic-braking limit and the resumed step succeeded
-    if inv not in ("Resume", "ResumeJsonTol") or desc.get("scale") != "real" or desc.get("pre", 0) != 0:
-        return False
-    if desc.get("kind") not in ("Consist", "ConsistSimulation", "SetSpeedTrainSim", "SpeedLimitTrainSim", "SpeedLimitTrainSim.finished"):
-        return False
-    ref = next((e for e in events if e.get("ev") == "Ref"), None)
-    if not ref or not ref["oks"] or ref["oks"][0] or "exceeds max DB power" not in ref.get("msgs", [""])[0]:
-        return False
-    loaded = False
-    for e in events:
-        if e.get("ev") == "SaveLoad" and e.get("ok"):
-            loaded = True
-        if e.get("ev") == "Step":
-            return e["k"] == 1 and loaded and e["ok"]
-    return False
+def _sl(fmt):
+    return lambda e: e.get("ev") == "SaveLoad" and e.get("ok") and e.get("fmt") == fmt
+
+
+CORRUPT = {
+    "step_digest": lambda ev: _corrupt(ev, lambda e: e.get("ev") == "Step" and e.get("ok"), lambda e: e.update(d=[1, 2], dev=1 << 30),
+                                       ["Resume"], nojson=True),
+    "step_outcome": lambda ev: _corrupt(ev, lambda e: e.get("ev") == "Step" and e.get("ok"), lambda e: e.update(ok=False),
+                                        ["Resume"], nojson=True),
+    "json_step_beyond_tolerance": lambda ev: _corrupt(ev, lambda e: e.get("ev") == "Step" and e.get("ok"),
+                                                      lambda e: e.update(d=[1, 2], dev=5000), ["ResumeJsonTol"], after_json=True),
+    "second_trip_digest": lambda ev: _corrupt(ev, _sl("yaml"), lambda e: e.update(d2=[1, 2]), ["Idempotent"]),
+    "second_trip_fails": lambda ev: _corrupt(ev, _sl("bin"), lambda e: e.update(ok2=False), ["Idempotent"]),
+    "yaml_number_1ulp_off": lambda ev: _corrupt(ev, _sl("yaml"), lambda e: e.update(load_ulps=1), ["LoadFidelity"]),
+    "json_number_2ulp_off": lambda ev: _corrupt(ev, _sl("json"), lambda e: e.update(load_ulps=2), ["LoadFidelity"]),
+    "load_fails_unknown_class": lambda ev: _corrupt(ev, _sl("yaml"), lambda e: e.update(ok=False, stage="de", errclass="other"),
+                                                    ["SaveLoadOk"]),
+    "history_column_not_saved": lambda ev: _corrupt(ev, _sl("json"), lambda e: e.update(colmis=1), ["HistoryColumns"]),
+    "start_digest": lambda ev: _corrupt(ev, lambda e: e.get("ev") == "Start", lambda e: e.update(d=[1, 2]), ["RefStable"]),
+}
 
 
 RULE = ("cases = every schedule over {step, yaml, json, bin} that TLC enumerates for every object kind in the bounded "
@@ -87,9 +100,13 @@ ASSUME = ["objects are saved and loaded only through the public SerdeAPI (to_str
           "observable trajectory = digest (60 bits of FNV-1a over the canonical value tree: sorted keys, floats by bit "
           "pattern) of every `state`, `history` and `i` sub-tree after each step; static types: digest of the result of "
           "using the object (train params, built sim, extended path)",
-          "after a JSON load the statement's parser-rounding allowance applies: equal digest, or class-relative "
-          "deviation of the projection <= 1e-9 (TolQ in CheckpointTrace.tla); yaml / bin are compared bit-exactly",
+          "tolerances exist only where the statement grants them: a number read from JSON may be 1 unit in the last place off "
+          "(LoadFidelity), and after a JSON load a step may differ from the reference by a class-relative 1e-9 (TolQ in "
+          "CheckpointTrace.tla); yaml / bin, idempotence and everything before a JSON load are compared bit-exactly. Since the "
+          "float_roundtrip repair the JSON path is exact in practice (0 one-ulp loads, 0 tolerance matches in trace_stats)",
           "a failed save/load leaves the run continuing on the original object (the failure is reported on that line)",
+          "what is not serialised is seen only through the structural rule HistoryColumns (saved `state` and `history` "
+          "have the same field names) and, for PathTpc, the public getters; other non-serialised state is invisible to the digest",
           "failures are recorded at most 3 times per (kind, event, invariant, format, error class) signature; all are "
           "counted in trace_stats"]
 
@@ -100,23 +117,30 @@ GROUP = dict(
         "quick": [dict(cfg="MCCheckpoint_quick.cfg", emit=True, max_emit=3000, workers=4, timeout=120),
                   dict(cfg="MCCheckpoint_deepcheck.cfg", emit=False, workers=4, timeout=120)],
         "thorough": [dict(cfg="MCCheckpoint_quick.cfg", emit=True, workers=4, timeout=300),
-                     dict(cfg="MCCheckpoint_deep.cfg", emit=True, max_emit=30000, workers=8, timeout=900)],
+                     dict(cfg="MCCheckpoint_deep.cfg", emit=True, max_emit=25000, workers=8, timeout=900)],
     },
-    gen_n={"quick": 150, "thorough": 4000},
-    per_case_ms=20000,
+    gen_n={"quick": 150, "thorough": 2000},
+    per_case_ms=120000,
     harness_timeout={"quick": 300, "thorough": 2400},
     trace_timeout={"quick": 300, "thorough": 1800},
     nontrivial=nontrivial,
     rule=RULE,
     props={
-        "C17": dict(invariants=["SaveLoadOk", "Idempotent", "LoadFidelity", "Resume", "ResumeJsonTol", "RefStable",
+        "C17": dict(invariants=["SaveLoadOk", "Idempotent", "LoadFidelity", "HistoryColumns", "Resume", "ResumeJsonTol", "RefStable",
                                 "NoPanic", "HarnessOk"],
                     assumptions=ASSUME, level="exploration", exhaustive=False),
     },
     sigs={"bin_skipped": _sl_sig("bin_skipped"), "bin_location": _sl_sig("bin_location"),
-          "json_nonfinite": _sl_sig("json_nonfinite"), "json_drift": _json_drift,
-          "fresh_consist_brake": _fresh_consist_brake},
-    vacuity=lambda r: ("no step was recorded" if r["stats"].get("steps", 0) == 0 else
+          "json_nonfinite": _sl_sig("json_nonfinite")},
+    # Level-B variants with one thing not surviving the round trip: TLC must find the schedule that exposes it
+    fault_models=[dict(cfg="MCCheckpoint_fault_skip.cfg", expect=["Stutter"]),     # a state field is #[serde(skip)] / reset by init()
+                  dict(cfg="MCCheckpoint_fault_i.cfg", expect=["Stutter"]),        # the step counter is not serialised
+                  dict(cfg="MCCheckpoint_fault_hist.cfg", expect=["Stutter"]),     # a history column is not serialised
+                  dict(cfg="MCCheckpoint_fault_drift.cfg", expect=["Idempotent", "Stutter"])],  # a parser that does not round-trip
+    selftest_cases=6,
+    corrupt=CORRUPT,
+    # (a --replay run has no model part and a single case: nothing to complain about)
+    vacuity=lambda r: None if not r["models"] else ("no step was recorded" if r["stats"].get("steps", 0) == 0 else
                        "no save/load succeeded" if r["stats"].get("sl_ok", 0) == 0 else
                        "no step followed a successful load" if r["stats"].get("after_load_steps", 0) == 0 else
                        "steps never change the observable digest" if r["stats"].get("moved", 0) == 0 else
@@ -134,7 +158,8 @@ _NOTE = ("Exploration, not proof: byte-level encode/decode fidelity is decided b
          "model-checked is the schedule space (every interleaving of steps and checkpoints up to depth 6 per kind, depth 4 for "
          "static / heavy kinds) and the stuttering statement on the abstract object. Trusted: TLC, the canonical-tree digest "
          "(FNV-1a, 60 bits: a collision would hide a difference), serde's Serialize impls as the projection. Known format-level "
-         "defects F-C17-1..4 are matched by (type, format, failure kind) signatures; anything else is a violation.")
+         "defects F-C17-1..3 are matched by (type, format, failure kind) signatures; anything else is a violation (F-C17-4 JSON float "
+         "parsing and F-C17-5 fresh-consist braking were found by this check and repaired; their inputs are replayed as regressions).")
 _TECH = "TLA+ refinement statement + TLC schedule enumeration + spec->impl replay + TLC trace validation (digest comparison)"
 MANIFEST = {
     "C17": dict(engine="Checkpoint", design_ref="3 (C17)", technique=_TECH, category="exploration",
@@ -142,7 +167,7 @@ MANIFEST = {
                      "SaveLoad(json), SaveLoad(bin)} up to depth 6 for 28 object kinds (components, locomotives, consists, traces, "
                      "train configs / builders, PathTpc finished and unfinished, locomotive / consist / set-speed / speed-limit "
                      "simulations, networks, est-time networks, locations) and checks that SaveLoad is a stuttering step of the "
-                     "observable trajectory on the abstract object; every schedule (quick: depth 4 / 3; thorough: a 30 000 sample "
+                     "observable trajectory on the abstract object; every schedule (quick: depth 4 / 3; thorough: a 25 000 sample "
                      "of depth 6 / 4) plus seeded realistic-scale cases with checkpoints up to 400 steps into a run is replayed on "
                      "real objects through the public SerdeAPI; TLC then requires on every recorded line: the round trip returns "
                      "Ok, a second round trip has the same digest, loaded numbers are bit-exact (json: within 1 ulp), and every "
